@@ -49,33 +49,35 @@ SPEC = {
                 'lock-protected accesses; no panics inside critical sections'],
     'assumptions': ['one poll goroutine per poller (Start is once-only); polls are sequential',
                     'fewer than 2^64 events for the wrap-free form of the health theorems (the exact form has the wrap)'],
-    'level_text': 'PARTIAL. Proof: 21 Coq theorems over the executable model of both pollers, for every event history '
-                  '(induction, no bound): every read sees views derived from ONE configuration (the most recent successful '
-                  'fetch or the initial state); failed/partial polls and reads change nothing; paging = concatenation up to '
-                  'the first short page; health bad exactly when not polling or after 10 consecutive failed ticker polls '
-                  '(pre-repair home-chain counter refuted, F21a); both-digests-empty is a failed poll; IsNodeObserver = '
-                  'bit j of the bitmap for all n<=256 and refuses everything else; node id = position, observer sets = '
-                  'bitmap bit for bit; Close ends polling for good. '
-                  'Lock level (Model/Locks.v, Proofs/LocksP.v, lib/genlocks.py): the action programs (Lock/RLock/Unlock/RUnlock, '
-                  'field reads and writes, struct copies, channel waits, branching, loops, defer resolved) of EVERY method of both '
-                  'pollers are extracted from the Go sources on every run and pass the decidable check well_locked; the general '
-                  'theorem, proved once for all programs over a small-step interleaving semantics of N threads and one RWMutex, then '
-                  'gives for any number of goroutines running any of these methods under any scheduler: no data race, the stored '
-                  'views are one snapshot whenever no write section is open (setState replaces the group completely or not at all), '
-                  'every getter sees fields of ONE snapshot version (never a mixture), no unlock of an unlocked mutex, returned '
-                  'methods hold nothing, a lock holder can always move (no deadlock from the lock operations). Six ill-locked '
-                  'programs refuted by explicit interleavings. '
-                  'Not proved (tested): the Go memory model below lock-protected access and the real scheduler - still exercised every '
-                  'run with 16 reader goroutines during refresh under the race detector, each observed '
-                  'view / struct copy checked in Coq to be whole, from one polled configuration, and never older than the previous one.',
-    'level_note': 'Trusted: Coq kernel, hand-written model, differential harness (gated scripted contract reader, 300us ticker), '
-                  'race detector. A nil observer bitmap panics (F21b, modelled as Panic; it would kill the poll goroutine). '
-                  'HealthReport called concurrently races inside chainlink-common ErrorBuffer.Flush (write under RLock); '
-                  'the concurrent part therefore does not call HealthReport. No axioms.',
-    'modelled': 'homeChainPoller (poll loop, fetchAndSetConfigs paging, convert, setState + create* views, getters, HealthReport, '
-                'Close), rmnHomePoller (same + both-digests-empty), convertOnChainConfigToRMNHomeChainConfig, IsNodeObserver; '
-                'lock level: every method of homeChainPoller / rmnHomePoller as an action program extracted per run (mutex operations, '
-                'accesses to state.* / rmnHomeState.* / failedPolls, calls among the methods inlined, goroutine starts, channel waits) '
-                'over an interleaving semantics with one RWMutex and version-tagged fields; ticker timing and the values stored are '
-                'not part of the lock-level model',
+    'level_text': 'PARTIAL. Proof: 47 closed Coq theorems. 28 property theorems. Event level, for every history of start / poll / read / close events of both pollers: '
+                  'every read sees views derived from ONE configuration - the most recent successful fetch or the initial state (C18_snapshot_home, C18_snapshot_rmn); '
+                  'failed and partial polls change nothing; paging = concatenation up to the first short page; health is bad exactly when not polling or after 10 '
+                  'CONSECUTIVE failed polls (C18_health_exact_*; F21a refuted, repaired in /repo); IsNodeObserver = bit j of the bitmap for all n <= 256 and refuses '
+                  'everything else (C18_bitmap, _refusals); node id = position, observer sets = bitmap bit for bit. Lock level: C18_locks_all_interleavings - for '
+                  'well-locked programs, any number of goroutines and any scheduler: no data race, a group of fields is replaced completely or not at all, every getter '
+                  'sees fields of ONE snapshot version, a lock holder can always move; six ill-locked programs refuted by explicit interleavings. Lock tie, every run: '
+                  'the action programs of EVERY method of homeChainPoller and rmnHomePoller are extracted from the Go sources and the theorem is instantiated on them (7 '
+                  'theorems, C18_locks_gen.v: *_well_locked, C18_extraction_covers_fields, C18_snapshot_all_interleavings_gen, ...). Translation tie (3 theorems, '
+                  "C18_gen.v): IsNodeObserver. Judge soundness (19 C18_judge_*): for each of the 6 sinks the executable property accepts the model's output and implies "
+                  'the Prop-level clause; the concurrent judge accepts IFF a consistent reading of the records exists. Correspondence, every run: the real pollers over a '
+                  'gated scripted contract reader on event histories, every getter compared at every read; 16 reader goroutines during back-to-back refresh under the '
+                  'race detector, every view and RLock-ed struct copy checked in Coq to be whole, from one polled configuration and never older than the previous one. '
+                  'Partial because the Go memory model below lock-protected access, writer preference of RWMutex and panics inside critical sections are not modelled, '
+                  'and the real scheduler is only exercised (-race).',
+    'level_note': 'Trusted: Coq kernel, hand-written model and theorem statements, differential harness (gated scripted contract reader, starvation-aware watches), race '
+                  'detector, leaf translator, and the lock extractor /verif/locks: syntactic classification of accesses, the table of guarded fields, calls on other '
+                  'receivers / unguarded fields assumed not to touch the mutex or the guarded fields; sync.RWMutex as modelled (mutual exclusion, blocking acquisition, '
+                  'no owner check); sequential consistency of lock-protected accesses. Oracles: the contract reader (assumed to fail once its context is cancelled), '
+                  'chainconfig.DecodeChainConfig, services.StateMachine of chainlink-common, math/big And / Cmp / Lsh. Assumed: one poll goroutine per poller, polls '
+                  'sequential; fewer than 2^64 events for the wrap-free health form. A nil observer bitmap panics (F21b, modelled as Panic). HealthReport called '
+                  'concurrently races inside chainlink-common ErrorBuffer.Flush, so the concurrent part does not call it. No axioms.',
+    'technique': 'Coq theorems by induction over poller event histories on a hand-written Gallina model, plus a general interleaving theorem for well-locked programs '
+                 'instantiated on lock programs extracted from the Go source per run; differential correspondence with proved judge incl. -race reader goroutines; '
+                 'IsNodeObserver re-translated from Go. Partial: memory model and real scheduler are tested',
+    'modelled': 'homeChainPoller (poll loop, fetchAndSetConfigs paging, convert, setState + create* views, getters, HealthReport, Close), rmnHomePoller (same + '
+                'both-digests-empty), convertOnChainConfigToRMNHomeChainConfig, IsNodeObserver; lock level: every method of homeChainPoller / rmnHomePoller as an '
+                'action program extracted per run (mutex operations, accesses to state.* / rmnHomeState.* / failedPolls, calls among the methods inlined, goroutine '
+                'starts, channel waits) over an interleaving semantics with one RWMutex and version-tagged fields; ticker timing and the values stored are not part of '
+                'the lock-level model. Translated from source per run: reader.IsNodeObserver (C18_gen.v). Inputs of the model: the scripted contract-reader answers per '
+                'poll (pages, failures), the event order',
 }
